@@ -32,12 +32,13 @@ START = CheckFn("c15-start", "Model.ReplaceCheck", "start_check", Tup(LabT, Nat,
 ALIAS = CheckFn("c15-alias", "Model.ReplaceCheck", "alias_check", Tup(GraphT, Nat, EdgeT, OutT), imports=["Model.Replace"])
 CHECKFNS = [REPL, LIN, DER, START, ALIAS]
 
-ALIAS_KEY = "c15_replacement_is_host"
+# regression case of the (fixed) finding c15_replacement_is_host; runs first in every run
+CORPUS_ALIAS = os.path.join(VERIF, "corpus", "C15-replacement-is-host.replay.json")
 
 ASSUMPTIONS = [
     "implicit Node/Edge ids (object addresses) are modelled by a fresh-id counter: a newly created object's id differs from the id of every object still referenced (the harness keeps every graph alive while it is compared; a separate derive() run without any keep-alive is compared by position)",
     "both label tables of Graph are modelled: the edge-label table (name clash -> ValueError) and the node-label table (a NodeLabel is its name; the table is the list of names in insertion order)",
-    "replace_edge(g, e, g) with the replacement aliasing the host is modelled separately (replace_edge_alias_model: live dict views, RuntimeError after the first insertion); the dict-iterator protocol of CPython (size test on every next()) is taken from the interpreter, not proved",
+    "replace_edge(g, e, g) with the replacement aliasing the host: the code (since /repo 0be4bef) reads the replacement into lists before its first mutation, so the model is replace_edge_model with r := g (replace_edge_self_model); replace_edge_alias_model_old (live dict views of CPython, RuntimeError after the first insertion) is only the record of the fixed finding",
     "weights: the product theorem is proved for every commutative semiring; the run-time comparison uses non-negative integer weights (exact in float)",
 ]
 
@@ -81,6 +82,7 @@ def judged_replace(ctx, g, e, repl, pre=None):
     import fggs
     whost, we, wrepl = ctx.graph(g), ctx.edge(e), ctx.graph(repl)
     nx = ctx.nx
+    rnodes, redges = list(repl.nodes()), list(repl.edges())      # as passed (repl may be g itself)
     if pre is not None: pre()
     try:
         nm, em = fggs.replace_edge(g, e, repl)
@@ -91,9 +93,9 @@ def judged_replace(ctx, g, e, repl, pre=None):
     # canonical numbering of the new implicit ids by ROLE (image of which replacement node / edge),
     # so that the comparison with the model is up to renaming of fresh ids; whatever the maps do not
     # account for is numbered afterwards in the order of the result's dicts
-    for rn in repl.nodes():
+    for rn in rnodes:
         if rn in nm: ctx.node(nm[rn])
-    for re_ in repl.edges():
+    for re_ in redges:
         if re_ in em: ctx.id(em[re_].id); ctx.keep.append(em[re_])
     wres = ctx.graph(g)
     wnm = [(ctx.node(a), ctx.node(b)) for a, b in nm.items()]
@@ -102,20 +104,10 @@ def judged_replace(ctx, g, e, repl, pre=None):
     return (nm, em, status), case
 
 def judged_alias(ctx, g, e):
-    """fggs.replace_edge(g, e, g): the host is its own replacement.  The wire holds the graph as the
-    caller passed it (before the call); new objects are numbered in the order of the result's dicts"""
-    import fggs
-    whost, we = ctx.graph(g), ctx.edge(e)
-    nx = ctx.nx
-    try:
-        nm, em = fggs.replace_edge(g, e, g)
-        status = 0
-    except Exception as ex:
-        nm, em, status = {}, {}, exc_status(ex)
-    wres = ctx.graph(g)
-    wnm = [(ctx.node(a), ctx.node(b)) for a, b in nm.items()]
-    wem = [(ctx.edge(a), ctx.edge(b)) for a, b in em.items()]
-    return status, (whost, nx, we, (status, wres, wnm, wem))
+    """fggs.replace_edge(g, e, g): the host is its own replacement.  Same wire as any other call with the
+    replacement = the host as the caller passed it (before the call)"""
+    (nm, em, status), (whost, nx, we, wrepl, out) = judged_replace(ctx, g, e, g)
+    return status, (whost, nx, we, out)
 
 # ----------------------------------------------------------------------------
 # grammar specs: forced shapes (pure transformations of a gen.random_spec spec)
@@ -613,6 +605,14 @@ def alias_cases(rng, n):
         else:                                  # absent edge
             g.add_node(a); g.add_edge(fggs.Edge(X, (a,), id=mk("e"))); g.ext = [a]; e = fggs.Edge(X, (a,), id=mk("zz"))
         return g, e
+    # the recorded failing input of the fixed finding c15_replacement_is_host runs first
+    try:
+        import json as _json
+        rc = _json.load(open(CORPUS_ALIAS)).get("case", {}).get("spec", {})
+        g, e = small(rc.get("shape", "only_edge"), rc.get("ids", "explicit"))
+        out.append(("corpus:" + rc.get("shape", "only_edge"), Ctx(), g, e, dict(rc, corpus="C15-replacement-is-host")))
+    except OSError:
+        pass
     for shape in ["internal_node", "only_edge", "all_ext_other_edge", "wrong_type", "absent_edge"]:
         for ids in ["explicit", "implicit"]:
             g, e = small(shape, ids)
@@ -664,10 +664,7 @@ DER_MSG = {1: "derive(): graph is not isomorphic to the derived graph (oracle sa
            3: "derive(): product of factor weights differs from the product of the rule-instance weights",
            4: "generated derivation tree is not well-formed (harness bug)", 10: "derive() differs from derive_model",
            11: "derive_model raises on a well-formed derivation"}
-ALIAS_MSG = {1: "replace_edge(g, e, g) -- the host graph passed as its own replacement -- does not replace e by (a copy of) g: it raises RuntimeError half-way or returns a graph without the copy of e (oracle replace_ok rejects; outcome equals replace_edge_alias_model)",
-             2: "replace_edge(g, e, g): wrong type / absent edge not rejected with ValueError leaving the graph unchanged",
-             4: "replace_edge(g, e, g) violates the replacement specification AND differs from the aliasing model",
-             10: "replace_edge(g, e, g) differs from replace_edge_alias_model (if /repo was repaired: update the model and mark the finding fixed)"}
+ALIAS_PREFIX = "replace_edge(g, e, g) -- the host graph passed as its own replacement: "
 
 def run(tier, seed):
     # the harness keeps every wire value and every fggs object alive until the verdicts are in (a few
@@ -686,6 +683,18 @@ def _run(tier, seed):
     import time as _time
     t_start = _time.time()
     violations, notes = [], 0
+    # replace_edge(g, e, g)
+    al = alias_cases(rng, 50 if tier == "quick" else 400)
+    alias_wire, alias_meta, alias_obs = [], [], {}
+    for shape, ctx, host, edge, desc in al:
+        try:
+            status, case = judged_alias(ctx, host, edge)
+        except Exception as ex:
+            violations.append(Violation("harness could not run aliasing case %s: %r" % (shape, ex), case=desc, corr="harness", failing_input_found=False))
+            continue
+        alias_wire.append(case); alias_meta.append(dict(kind="alias:" + shape, spec=desc))
+        key = shape + ":" + STATUS_NAME[status]
+        alias_obs[key] = alias_obs.get(key, 0) + 1
     n_trees = 115 if tier == "quick" else 2000
     n_forced = 10 if tier == "quick" else 100
     if os.environ.get("C15_TREES"): n_trees = int(os.environ["C15_TREES"])      # mutation self-tests only
@@ -832,25 +841,12 @@ def _run(tier, seed):
         mal_hist[kind] = mal_hist.get(kind, 0) + 1
         key = kind + ":" + STATUS_NAME[status]
         mal_obs[key] = mal_obs.get(key, 0) + 1
-    # replace_edge(g, e, g)
-    al = alias_cases(rng, 50 if tier == "quick" else 400)
-    alias_wire, alias_meta, alias_obs = [], [], {}
-    for shape, ctx, host, edge, desc in al:
-        try:
-            status, case = judged_alias(ctx, host, edge)
-        except Exception as ex:
-            violations.append(Violation("harness could not run aliasing case %s: %r" % (shape, ex), case=desc, corr="harness", failing_input_found=False))
-            continue
-        alias_wire.append(case); alias_meta.append(dict(kind="alias:" + shape, spec=desc))
-        key = shape + ":" + STATUS_NAME[status]
-        alias_obs[key] = alias_obs.get(key, 0) + 1
-
     t_calls = _time.time()
+    acodes, k5 = run_model(ALIAS, alias_wire, seed=seed, tag="c15a", coq_sample=3)
     rcodes, k1 = run_model(REPL, [c for c, _ in repl_cases], seed=seed, tag="c15r", coq_sample=8)
     lcodes, k2 = run_model(LIN, lin_cases, seed=seed, tag="c15l", coq_sample=5)
     dcodes, k3 = run_model(DER, der_cases, seed=seed, tag="c15d", coq_sample=5)
     scodes, k4 = run_model(START, start_cases, seed=seed, tag="c15s", coq_sample=3)
-    acodes, k5 = run_model(ALIAS, alias_wire, seed=seed, tag="c15a", coq_sample=3)
     t_model = _time.time()
     exact = [0, 0]
     for c, m, code in zip(start_cases, start_meta, scodes):
@@ -880,10 +876,11 @@ def _run(tier, seed):
     for c, m, code in zip(alias_wire, alias_meta, acodes):
         alias_codes[code] = alias_codes.get(code, 0) + 1
         if code == 0: continue
-        violations.append(Violation(ALIAS_MSG.get(code, "code %d" % code), case=dict(m, wire=c[:3]), observed=c[3],
-                                    oracle="replace_ok" if code in (1, 2, 4) else None, failing_input_found=code in (1, 2, 4),
-                                    corr="C15_replace_alias_never_spec / C15_replace_alias_guarded / corr:replace_edge(g, e, g)",
-                                    call="fggs.replace_edge(g, e, g)", finding_key=ALIAS_KEY if code == 1 else None))
+        if code == 20: notes += 1; continue
+        violations.append(Violation(ALIAS_PREFIX + REPL_MSG.get(code, "code %d" % code), case=dict(m, wire=c[:3]), observed=c[3],
+                                    oracle="replace_ok" if code in (1, 2, 3) else None, failing_input_found=code in (1, 2, 3),
+                                    corr="C15_replace_self_spec / C15_replace_ok_exact / corr:replace_edge(g, e, g)",
+                                    call="fggs.replace_edge(g, e, g)"))
     if notes: print("NOTE C15: %d result(s) equal to the model only up to dict order" % notes)
     shape_hist.update(trees=made, forced_grammar_trees=min(made, n_forced), rule_used_at_several_places=reused,
                       derive_runs_with_nothing_kept_alive=plain_runs, derive_runs_where_a_dead_objects_address_was_reused=addr_reuse_trees,
@@ -899,8 +896,8 @@ def _run(tier, seed):
                     "steps when <= 120, else the depth-first order + random ones up to 120; every replace_edge call is judged by replace_ok, every final graph by same_upto_naming "
                     "against derived_graph; derive() likewise plus assignment (total, nothing else, values) and integer weight product, once with and once without keeping objects alive. "
                     "distinct_nontrivial = distinct (grammar rules, tree shape) pairs with >= 2 rule instances. "
-                    "Single-call stream: wrong type, absent edge, both, repeated external node, label-name clash, attachment node not in nodes(), edge with a stolen id, valid calls on hosts "
-                    "with external nodes, hosts whose explicit ids are the decimal strings of just-freed addresses. Aliasing stream: replace_edge(g, e, g).",
+                    "Aliasing stream (first): replace_edge(g, e, g), the recorded failing input of the fixed finding first. Single-call stream: wrong type, absent edge, both, repeated external node, label-name clash, attachment node not in nodes(), edge with a stolen id, valid calls on hosts "
+                    "with external nodes, hosts whose explicit ids are the decimal strings of just-freed addresses.",
                samples=samples, trees=made, trees_with_reused_rule=reused, trees_all_linearisations=n_exh, trees_sampled_linearisations=n_samp,
                replace_calls=len(repl_cases), linearisations=len(lin_cases), derive_calls=len(der_cases),
                tree_size_histogram=hist_size, linearisations_per_tree_histogram=hist_lin, grammar_features=feats,
@@ -908,15 +905,12 @@ def _run(tier, seed):
                malformed_histogram=mal_hist, malformed_observed=mal_obs, exact_agreement="%d/%d" % tuple(exact),
                alias_calls=len(alias_wire), alias_observed=alias_obs, alias_verdicts={str(k): v for k, v in alias_codes.items()},
                kernel_reevaluated=k1 + k2 + k3 + k4 + k5, start_graph_calls=len(start_cases),
-               phase_seconds=dict(trees_with_implementation=round(t_trees - t_start, 1), single_and_aliased_calls=round(t_calls - t_trees, 1),
+               phase_seconds=dict(aliased_calls_and_trees_with_implementation=round(t_trees - t_start, 1), single_calls=round(t_calls - t_trees, 1),
                                   model_and_oracles=round(t_model - t_calls, 1)),
                open_items=OPEN_ITEMS)
     return cov, violations
 
-OPEN_ITEMS = [
-    "CPython's dict-iterator protocol (RuntimeError when the dict changed size, tested on every next()) is an assumption of replace_edge_alias_model, observed on every run but not proved",
-    "known finding c15_replacement_is_host: replace_edge(g, e, g) is not a replacement (C15_replace_alias_never_spec); not repaired in /repo",
-]
+OPEN_ITEMS = []
 
 def replay(path):
     import json
@@ -938,7 +932,7 @@ def replay(path):
 
 MANIFEST = dict(
     level="proof",
-    text="Coq theorems about a Gallina model that follows fggs.replace_edge / start_graph / FGGDerivation.derive statement by statement (both label tables included): replacement specification and well-formedness preservation (C15_replace_spec), the executable oracles are EXACT deciders of the specifications (C15_replace_ok_exact, C15_same_upto_naming_exact, C15_start_ok_exact), confluence over every linearisation by an invariant (C15_confluence), derive() = the derived graph with an assignment defined exactly on its nodes that is the denotational one, a function of the node name (C15_derive_assignment_exact, C15_derived_asst_nodup), and the weight product in any commutative semiring (C15_derive); node-label table tight along every run (C15_run_node_labels); the aliased call replace_edge(g, e, g) never meets the specification (C15_replace_alias_never_spec, known finding). The model is tied to /repo by running every linearisation (<= 120 per tree) with the implementation and judging each call and each final graph with the extracted verified oracles.",
-    note="Trusted: Coq kernel + vm_compute, extraction cross-checked against vm_compute, the Python harness that numbers ids/labels and names nodes through the maps replace_edge returns; CPython's dict-iterator protocol for the aliasing model.",
+    text="Coq theorems about a Gallina model that follows fggs.replace_edge / start_graph / FGGDerivation.derive statement by statement (both label tables included): replacement specification and well-formedness preservation (C15_replace_spec), the executable oracles are EXACT deciders of the specifications (C15_replace_ok_exact, C15_same_upto_naming_exact, C15_start_ok_exact), confluence over every linearisation by an invariant (C15_confluence), derive() = the derived graph with an assignment defined exactly on its nodes that is the denotational one, a function of the node name (C15_derive_assignment_exact, C15_derived_asst_nodup), and the weight product in any commutative semiring (C15_derive); node-label table tight along every run (C15_run_node_labels); the aliased call replace_edge(g, e, g) meets the same specification since /repo 0be4bef (C15_replace_self_spec; the old behaviour is kept as replace_edge_alias_model_old with C15_replace_alias_old_never_spec / _refuted, and its failing input is a regression case run first). The model is tied to /repo by running every linearisation (<= 120 per tree) with the implementation and judging each call and each final graph with the extracted verified oracles.",
+    note="Trusted: Coq kernel + vm_compute, extraction cross-checked against vm_compute, the Python harness that numbers ids/labels and names nodes through the maps replace_edge returns.",
     technique="Coq proof (model + theorems) + model/implementation correspondence with verified-spec oracles (sound and complete)",
     design_ref="DESIGN.md section 6, C15")
